@@ -496,88 +496,6 @@ def rule_scalars(fx, rep):
                   '; '.join(sorted(set(bad))[:3]), where, construct=sp)
 
 
-def fq12_slot_order(fx, b):
-    """Which read (in program order) feeds each of the 12 coefficient slots of the result."""
-    o = Origin(b)
-    # program order of from_repr calls
-    frs = sorted([(i, t) for i, t in b.calls() if (callee(t) or {}).get('name') == 'from_repr'], key=lambda x: x[0])
-    idx_of_block = {i: k for k, (i, t) in enumerate(frs)}
-    # find the Ok(Fq12{..}) aggregate
-    agg = None
-    for blk in b.blocks:
-        for s in blk['stmts']:
-            if s['k'] == 'assign' and s['rv']['k'] == 'agg' and s['rv']['kind'].get('adt', '').endswith('fq12::Fq12'):
-                agg = s
-    if agg is None:
-        return None
-    t = o.operand(['c', agg['place']]) if False else None
-    out = []
-
-    def leaf(term):
-        term = strip(term)
-        # proj(Ok payload) of from_repr call result
-        for _ in range(6):
-            if term[0] == 'proj':
-                term = strip(term[1])
-            else:
-                break
-        if term[0] == 'call' and term[1].get('name') == 'from_repr':
-            return idx_of_block.get(term[4])
-        return None
-
-    def walk(term):
-        term = strip(term)
-        if term[0] == 'agg' and 'adt' in term[1] and any(term[1]['adt'].endswith(x) for x in ('fq12::Fq12', 'fq6::Fq6', 'fq2::Fq2')):
-            for x in term[2]:
-                walk(x)
-        else:
-            out.append(leaf(term))
-    walk(('agg', agg['rv']['kind'], [o.operand(x) for x in agg['rv']['ops']]))
-    return out
-
-
-def error_discipline(fx, b):
-    """Every call returning a Result/Option of an input-dependent operation must be
-    consumed by a branch (match / ?) -- not unwrapped, not dropped."""
-    bad = []
-    o = Origin(b)
-    fallible = ('read_be', 'read_exact', 'from_repr', 'into_affine', 'write_be', 'write_all')
-    from mirutil import Resolver
-    r = Resolver(b)
-    for i, t in b.calls():
-        c = callee(t)
-        if not c or c.get('name') not in fallible:
-            continue
-        d = t['dest']
-        if d['p']:
-            continue
-        l = d['l']
-        used = False
-        # the result must reach a discriminant read or Try::branch or be returned
-        for j, blk in enumerate(b.blocks):
-            for s in blk['stmts']:
-                if s['k'] == 'assign' and s['rv']['k'] == 'discr' and s['rv']['place']['l'] == l:
-                    used = True
-            tt = blk['term']
-            if tt['k'] == 'call':
-                cc = callee(tt)
-                for a in tt['args']:
-                    p = op_place(a)
-                    if p is not None and p['l'] == l and not p['p']:
-                        if cc and cc.get('name') in ('branch',):
-                            used = True
-                        elif cc and cc.get('name') in ('unwrap', 'expect'):
-                            bad.append('%s result is unwrapped at %s (panics on bad input)' % (c['name'], tt['span']))
-                            used = True
-                        elif cc and cc.get('name') in ('map_err', 'map', 'and_then', 'or_else', 'ok_or'):
-                            used = True
-        if l == 0:
-            used = True
-        if not used:
-            bad.append('%s result at %s is never examined (error dropped)' % (c['name'], t['span']))
-    return bad
-
-
 def rules(fx, rep):
     rule_point_deserializers(fx, rep)
     rule_point_serializers(fx, rep)
